@@ -176,6 +176,9 @@ func init() {
 				if i%24 == 13 {
 					cfg.Directed = "wordMultiple"
 				}
+				if i%24 == 1 {
+					cfg.Directed = "varReuseSends"
+				}
 			case 4:
 				if i%12 == 4 {
 					cfg.Directed = "repeatDraw"
